@@ -630,6 +630,15 @@ class Obligation:
             goal = self.goal
         # hypothesis slicing (sound: unsat with a subset of the hypotheses is unsat with all of them)
         tm = timeout_ms or TIMEOUT_MS
+        if self.kind == "lemma-poly" and (z3.is_true(goal) or z3.is_false(goal)):
+            # an exact polynomial / rational-function identity decided by sympy's normal form in the contract
+            self.status = "discharged" if z3.is_true(goal) else "refuted"
+            self.backend = "poly"
+            self.note = "identity decided by sympy normal form" if z3.is_true(goal) else "the identity does not hold (sympy normal form of the difference is not 0)"
+            self.model = {} if z3.is_false(goal) else None
+            STATS.by_backend["poly"] = STATS.by_backend.get("poly", 0) + 1
+            self.time_s = time.time() - t0
+            return self.status
         if self.split and self._split_discharge(goal, tm, t0):
             return self.status
         if len(self.hyps) > 12:
